@@ -132,7 +132,7 @@ def body(ctx):
         size = rng.choice([0, 1, 7, 8, 9, 65535, 65536, 65537, rng.randint(0, 300000)] + ([rng.randint(1000000, 4000000)] if j % 13 == 0 else []))
         spec = dict(seed=ctx.seed * 13 + j, maxdata=rng.choice([4096, 65536, 1024 * 1024]), rid='random', frag=rng.choice(['whole', 'random', 'empty'] if size < 50000 else ['whole']),
                     ops=[dict(api='pull', path=rng.choice(['/p', '/sdcard/éa', '/фото.jpg', '/€']), path_bytes=rng.random() < 0.3, size=size, data_sizes=rng.choice([None, 'random']), cuts=rng.choice(['whole', 'random', 'small'] if size < 20000 else ['whole', 'random']),
-                              dest=rng.choice(['bytesio', 'path']), cb=rng.choice([None, 'ok', 'raise', 'raise_base']),
+                              dest=rng.choice(['bytesio', 'path']), cb=rng.choice([None, 'ok', 'raise', 'raise_base', 'reenter']),      # reenter: the callback runs a shell command on the same device
                               local_as=rng.choice(['str', 'pathlib', 'bytes', 'fd']),                   # what open() accepts as a destination
                               stat_size=rng.choice([None, None, 0, 1, size + 1, 0xFFFFFFFF]))])          # what STAT says need not be what RECV delivers (procfs; a growing file)
         mode = ('sync', 'async')[j % 2]
@@ -147,6 +147,15 @@ def body(ctx):
                              dict(api='resume', gen='log')])
             for mode in ('sync', 'async'):
                 runs.append((mode, spec) + run_with_inert(spec, mode))
+    for k4, size in enumerate((1, 70000, 200000)):
+        spec = dict(seed=ctx.seed + 760 + k4, maxdata=4096, rid='plus', frag='whole', ops=[dict(api='pull', path='/re', size=size, dest='bytesio', cb='reenter'),
+                                                                                             dict(api='shell', decode=False, cmd='after', chunks=[b'ok'.hex()])])
+        for mode in ('sync', 'async'):
+            rr_, inert_ = run_with_inert(spec, mode)
+            runs.append((mode, spec, rr_, inert_))
+            got_ = rr_.extra.get('reentered', {}).get(0, [])
+            if any(bytes(x) != b're-entered' for x in got_) or (size and not got_):
+                ctx.violation('C08.CallbackInert', dict(kind='a callback that runs a command on the same device', mode=mode, size=size, results=[repr(x)[:40] for x in got_][:5]))
     judge(ctx, runs, 'offsets, random sizes/records/cuts/destinations/callbacks')
     ctx.assumptions += ['a model header byte stands for 4 real bytes and a model body byte for 5 (the reader is position-agnostic); all 7 intra-header offsets are covered by the single-cut family',
                         'with a progress callback pull() first issues stat() on another stream: CallbackInert compares the RECV stream and the bytes written']
